@@ -3,9 +3,36 @@
 //! postcondition = the emitted word decodes (reference decoder a64dec) to the request.
 //! "Returned ⇒ decoded == requested": an operand that cannot be encoded must make the call
 //! panic (refusal); a silently truncated field shows up as a decode mismatch.
+//!
+//! Requests are in canonical (non-alias) form: cmp = SUBS with Rd = ZR, mov = ORR / ADD #0 (SP),
+//! lsl #n = UBFM, cset = CSINC with the inverted condition, mul = MADD with Ra = ZR ...
+//! Branch / ADR offsets are requested in BYTES (see a64dec).
 use crate::a64dec::*;
 use crate::vp::Src;
 use dora_asm::arm64::*;
+use dora_asm::Label;
+
+/// public methods of `impl AssemblerArm64` that do not emit an instruction of their own
+/// (buffer / label management, raw data emitters): no contract row.
+pub const NOT_INSTRUCTION_METHODS: &[&str] = &[
+    "new",
+    "create_label",
+    "create_and_bind_label",
+    "bind_label",
+    "offset",
+    "finalize",
+    "align_to",
+    "position",
+    "set_position",
+    "set_position_end",
+    "emit_u8",
+    "emit_u32",
+    "emit_u64",
+    "emit_u128",
+];
+
+// ------------------------------------------------------------------------------------------
+// operand sources: every variant of every operand type
 
 /// a register operand over the whole type domain: x0..x30, REG_ZERO, REG_SP.
 /// Returns the assembler's value and how the request names it.
@@ -13,19 +40,611 @@ pub fn reg(s: &mut Src) -> (Register, R) {
     let k = s.below(33);
     if k < 31 { (Register::new(k), R::X(k)) } else if k == 31 { (REG_ZERO, R::Zr) } else { (REG_SP, R::Sp) }
 }
-pub fn one_word(a: AssemblerArm64) -> u32 {
-    let code = a.finalize(1).code();
-    crate::vp_check!(code.len() == 4, "exactly one instruction word emitted");
-    u32::from_le_bytes([code[0], code[1], code[2], code[3]])
+/// a SIMD&FP register v0..v31
+pub fn neon(s: &mut Src) -> (NeonRegister, R) {
+    let k = s.below(32);
+    (NeonRegister::new(k), R::V(k))
+}
+/// every variant of Cond (16 names, 14 encodings) with its architectural encoding
+pub fn cond(s: &mut Src) -> (Cond, u8) {
+    match s.below(16) {
+        0 => (Cond::EQ, 0),
+        1 => (Cond::NE, 1),
+        2 => (Cond::CS, 2),
+        3 => (Cond::HS, 2),
+        4 => (Cond::CC, 3),
+        5 => (Cond::LO, 3),
+        6 => (Cond::MI, 4),
+        7 => (Cond::PL, 5),
+        8 => (Cond::VS, 6),
+        9 => (Cond::VC, 7),
+        10 => (Cond::HI, 8),
+        11 => (Cond::LS, 9),
+        12 => (Cond::GE, 10),
+        13 => (Cond::LT, 11),
+        14 => (Cond::GT, 12),
+        _ => (Cond::LE, 13),
+    }
+}
+/// every variant of Shift with its architectural shift-type number
+pub fn shift(s: &mut Src) -> (Shift, u8) {
+    match s.below(4) {
+        0 => (Shift::LSL, 0),
+        1 => (Shift::LSR, 1),
+        2 => (Shift::ASR, 2),
+        _ => (Shift::ROR, 3),
+    }
+}
+/// requested `option` numbers of an Extend variant.
+/// `.1` = option in an add/sub (extended register) of the given width: LSL names UXTX for the
+///        64-bit form and UXTW for the 32-bit form (Arm ARM: "LSL|UXTX" / "LSL|UXTW");
+/// `.2` = option in a load/store register offset (only UXTW, LSL, SXTW, SXTX exist; 255 = none).
+pub fn extend(s: &mut Src, width: u8) -> (Extend, u8, u8) {
+    match s.below(9) {
+        0 => (Extend::UXTB, 0, 255),
+        1 => (Extend::UXTH, 1, 255),
+        2 => (Extend::LSL, if width == 64 { 3 } else { 2 }, 3),
+        3 => (Extend::UXTW, 2, 2),
+        4 => (Extend::UXTX, 3, 255),
+        5 => (Extend::SXTB, 4, 255),
+        6 => (Extend::SXTH, 5, 255),
+        7 => (Extend::SXTW, 6, 6),
+        _ => (Extend::SXTX, 7, 7),
+    }
 }
 
-crate::vp_harness!(add_imm, |s| {
-    let (rd, qd) = reg(s); let (rn, qn) = reg(s); let imm = s.u32();
+// ------------------------------------------------------------------------------------------
+// outcome plumbing
+
+pub fn code_of(a: AssemblerArm64) -> Vec<u8> {
+    a.finalize(1).code()
+}
+pub fn word_at(code: &[u8], k: usize) -> u32 {
+    if code.len() < 4 * k + 4 {
+        return 0;
+    }
+    u32::from_le_bytes([code[4 * k], code[4 * k + 1], code[4 * k + 2], code[4 * k + 3]])
+}
+pub fn one_word(a: AssemblerArm64) -> u32 {
+    let code = code_of(a);
+    crate::vp_check!(code.len() == 4, "exactly one instruction word emitted");
+    word_at(&code, 0)
+}
+/// In the 32-bit add/sub (extended register) forms UXTX/SXTX extend exactly like UXTW/SXTW
+/// (the operand is truncated to 32 bits): two encodings of one instruction. Compare modulo that.
+pub fn canon(mut i: Insn) -> Insn {
+    if i.sf == 32 && matches!(i.op, Op::AddExt | Op::AddsExt | Op::SubExt | Op::SubsExt) && (i.opt == 3 || i.opt == 7) {
+        i.opt -= 1;
+    }
+    i
+}
+/// the single postcondition of a one-instruction row
+pub fn chk(a: AssemblerArm64, want: Insn) {
+    let w = one_word(a);
+    let got = decode(w);
+    crate::vp_note!("w={:08x} asm=\"{}\" got {:?} want {:?}", w, render(&got), got, want);
+    crate::vp_check!(canon(got) == canon(want), "the emitted word decodes to the requested instruction");
+}
+
+// request builders
+fn q_rrr(op: Op, sf: u8, rd: R, rn: R, rm: R) -> Insn {
+    let mut i = Insn::new(op);
+    i.sf = sf;
+    i.rd = rd;
+    i.rn = rn;
+    i.rm = rm;
+    i
+}
+fn q_rr(op: Op, sf: u8, rd: R, rn: R) -> Insn {
+    let mut i = Insn::new(op);
+    i.sf = sf;
+    i.rd = rd;
+    i.rn = rn;
+    i
+}
+fn q_rri(op: Op, sf: u8, rd: R, rn: R, imm: i64) -> Insn {
+    let mut i = q_rr(op, sf, rd, rn);
+    i.imm = imm;
+    i
+}
+fn q_sh(op: Op, sf: u8, rd: R, rn: R, rm: R, opt: u8, amount: u32) -> Insn {
+    let mut i = q_rrr(op, sf, rd, rn, rm);
+    i.opt = opt;
+    i.imm = amount as i64;
+    i
+}
+fn q_rrrr(op: Op, sf: u8, rd: R, rn: R, rm: R, ra: R) -> Insn {
+    let mut i = q_rrr(op, sf, rd, rn, rm);
+    i.ra = ra;
+    i
+}
+fn q_csel(op: Op, sf: u8, rd: R, rn: R, rm: R, cond: u8) -> Insn {
+    let mut i = q_rrr(op, sf, rd, rn, rm);
+    i.cond = cond;
+    i
+}
+fn q_bf(op: Op, sf: u8, rd: R, rn: R, immr: i64, imms: i64) -> Insn {
+    let mut i = q_rr(op, sf, rd, rn);
+    i.imm = immr;
+    i.imm2 = imms;
+    i
+}
+fn q_movw(op: Op, sf: u8, rd: R, imm16: u32, sh: u32) -> Insn {
+    let mut i = Insn::new(op);
+    i.sf = sf;
+    i.rd = rd;
+    i.imm = imm16 as i64;
+    i.imm2 = sh as i64;
+    i
+}
+/// load/store of one register: rt, base, byte offset
+fn q_mem(op: Op, size: u8, sf: u8, rt: R, rn: R, imm: i64) -> Insn {
+    let mut i = Insn::new(op);
+    i.size = size;
+    i.sf = sf;
+    i.rd = rt;
+    i.rn = rn;
+    i.imm = imm;
+    i
+}
+fn q_memreg(op: Op, size: u8, sf: u8, rt: R, rn: R, rm: R, opt: u8, amount: u32) -> Insn {
+    let mut i = q_mem(op, size, sf, rt, rn, 0);
+    i.rm = rm;
+    i.opt = opt;
+    i.imm2 = amount as i64;
+    i
+}
+fn q_pair(op: Op, size: u8, sf: u8, rt: R, rt2: R, rn: R, imm: i64) -> Insn {
+    let mut i = q_mem(op, size, sf, rt, rn, imm);
+    i.rt2 = rt2;
+    i
+}
+fn q_atomic(op: Op, size: u8, rs: R, rt: R, rn: R, acq: bool, rel: bool) -> Insn {
+    let mut i = Insn::new(op);
+    i.size = size;
+    i.sf = if size == 8 { 64 } else { 32 };
+    i.rs = rs;
+    i.rd = rt;
+    i.rn = rn;
+    i.acq = acq;
+    i.rel = rel;
+    i
+}
+fn q_fp(op: Op, size: u8, rd: R, rn: R, rm: R) -> Insn {
+    let mut i = Insn::new(op);
+    i.size = size;
+    i.rd = rd;
+    i.rn = rn;
+    i.rm = rm;
+    i
+}
+fn q_fpint(op: Op, sf: u8, size: u8, rd: R, rn: R) -> Insn {
+    let mut i = Insn::new(op);
+    i.sf = sf;
+    i.size = size;
+    i.rd = rd;
+    i.rn = rn;
+    i
+}
+fn q_imm(op: Op, imm: i64) -> Insn {
+    let mut i = Insn::new(op);
+    i.imm = imm;
+    i
+}
+
+// row bodies shared by families of methods ------------------------------------------------
+
+/// method(rd, rn, rm) -> op rd, rn, rm
+macro_rules! rrr {
+    ($s:ident, $m:ident, $op:expr, $sf:expr) => {{
+        let (d, qd) = reg($s);
+        let (n, qn) = reg($s);
+        let (m, qm) = reg($s);
+        let mut a = AssemblerArm64::new();
+        a.$m(d, n, m);
+        chk(a, q_rrr($op, $sf, qd, qn, qm));
+    }};
+}
+/// method(rd, rn) -> op rd, rn
+macro_rules! rr {
+    ($s:ident, $m:ident, $op:expr, $sf:expr) => {{
+        let (d, qd) = reg($s);
+        let (n, qn) = reg($s);
+        let mut a = AssemblerArm64::new();
+        a.$m(d, n);
+        chk(a, q_rr($op, $sf, qd, qn));
+    }};
+}
+/// method(rd, rn, imm: u32) -> op rd, rn, #imm
+macro_rules! rri {
+    ($s:ident, $m:ident, $op:expr, $sf:expr) => {{
+        let (d, qd) = reg($s);
+        let (n, qn) = reg($s);
+        let imm = $s.u32();
+        let mut a = AssemblerArm64::new();
+        a.$m(d, n, imm);
+        chk(a, q_rri($op, $sf, qd, qn, imm as i64));
+    }};
+}
+/// method(rn, imm: u32) -> op zr, rn, #imm   (cmp / cmn)
+macro_rules! zri {
+    ($s:ident, $m:ident, $op:expr, $sf:expr) => {{
+        let (n, qn) = reg($s);
+        let imm = $s.u32();
+        let mut a = AssemblerArm64::new();
+        a.$m(n, imm);
+        chk(a, q_rri($op, $sf, R::Zr, qn, imm as i64));
+    }};
+}
+/// method(rd, rn, rm, shift, amount) -> op rd, rn, rm, <shift> #amount
+macro_rules! rrr_sh {
+    ($s:ident, $m:ident, $op:expr, $sf:expr) => {{
+        let (d, qd) = reg($s);
+        let (n, qn) = reg($s);
+        let (m, qm) = reg($s);
+        let (sh, qs) = shift($s);
+        let amount = $s.u32();
+        let mut a = AssemblerArm64::new();
+        a.$m(d, n, m, sh, amount);
+        let mut want = q_sh($op, $sf, qd, qn, qm, qs, 0);
+        want.imm = amount as i64;
+        chk(a, want);
+    }};
+}
+/// method(rd, rn, rm, extend, amount) -> op rd, rn, rm, <extend> #amount
+macro_rules! rrr_ext {
+    ($s:ident, $m:ident, $op:expr, $sf:expr) => {{
+        let (d, qd) = reg($s);
+        let (n, qn) = reg($s);
+        let (m, qm) = reg($s);
+        let (ex, qe, _) = extend($s, $sf);
+        let amount = $s.u32();
+        let mut a = AssemblerArm64::new();
+        a.$m(d, n, m, ex, amount);
+        let mut want = q_sh($op, $sf, qd, qn, qm, qe, 0);
+        want.imm = amount as i64;
+        chk(a, want);
+    }};
+}
+/// method(rd, rn, rm, ra)
+macro_rules! rrrr {
+    ($s:ident, $m:ident, $op:expr, $sf:expr) => {{
+        let (d, qd) = reg($s);
+        let (n, qn) = reg($s);
+        let (m, qm) = reg($s);
+        let (ra, qa) = reg($s);
+        let mut a = AssemblerArm64::new();
+        a.$m(d, n, m, ra);
+        chk(a, q_rrrr($op, $sf, qd, qn, qm, qa));
+    }};
+}
+/// method(rd, rn, rm, cond)
+macro_rules! rrrc {
+    ($s:ident, $m:ident, $op:expr, $sf:expr) => {{
+        let (d, qd) = reg($s);
+        let (n, qn) = reg($s);
+        let (m, qm) = reg($s);
+        let (c, qc) = cond($s);
+        let mut a = AssemblerArm64::new();
+        a.$m(d, n, m, c);
+        chk(a, q_csel($op, $sf, qd, qn, qm, qc));
+    }};
+}
+/// method(rd, rn, immr, imms)
+macro_rules! bf {
+    ($s:ident, $m:ident, $op:expr, $sf:expr) => {{
+        let (d, qd) = reg($s);
+        let (n, qn) = reg($s);
+        let immr = $s.u32();
+        let imms = $s.u32();
+        let mut a = AssemblerArm64::new();
+        a.$m(d, n, immr, imms);
+        chk(a, q_bf($op, $sf, qd, qn, immr as i64, imms as i64));
+    }};
+}
+/// method(rd, imm16, shift)
+macro_rules! movw {
+    ($s:ident, $m:ident, $op:expr, $sf:expr) => {{
+        let (d, qd) = reg($s);
+        let imm16 = $s.u32();
+        let sh = $s.u32();
+        let mut a = AssemblerArm64::new();
+        a.$m(d, imm16, sh);
+        chk(a, q_movw($op, $sf, qd, imm16, sh));
+    }};
+}
+
+// ==========================================================================================
+// add / sub
+
+crate::vp_harness!(add, |s| {
+    let (d, qd) = reg(s); let (n, qn) = reg(s); let (m, qm) = reg(s);
     let mut a = AssemblerArm64::new();
-    a.add_imm(rd, rn, imm);
-    let got = decode(one_word(a));
-    let mut want = Insn::new(Op::AddImm);
-    want.sf = 64; want.rd = qd; want.rn = qn; want.imm = imm as i64;
-    crate::vp_note!("got {:?} want {:?}", got, want);
-    crate::vp_check!(got == want, "add_imm decodes to ADD (immediate), 64-bit, requested rd/rn/imm");
+    a.add(d, n, m);
+    // ADD (shifted register) cannot name SP; with SP the canonical form is ADD (extended register), UXTX #0
+    let want = if qd == R::Sp || qn == R::Sp { q_sh(Op::AddExt, 64, qd, qn, qm, 3, 0) } else { q_sh(Op::AddSh, 64, qd, qn, qm, 0, 0) };
+    chk(a, want);
 });
+crate::vp_harness!(add_w, |s| {
+    let (d, qd) = reg(s); let (n, qn) = reg(s); let (m, qm) = reg(s);
+    let mut a = AssemblerArm64::new();
+    a.add_w(d, n, m);
+    let want = if qd == R::Sp || qn == R::Sp { q_sh(Op::AddExt, 32, qd, qn, qm, 2, 0) } else { q_sh(Op::AddSh, 32, qd, qn, qm, 0, 0) };
+    chk(a, want);
+});
+crate::vp_harness!(sub, |s| {
+    let (d, qd) = reg(s); let (n, qn) = reg(s); let (m, qm) = reg(s);
+    let mut a = AssemblerArm64::new();
+    a.sub(d, n, m);
+    let want = if qd == R::Sp || qn == R::Sp { q_sh(Op::SubExt, 64, qd, qn, qm, 3, 0) } else { q_sh(Op::SubSh, 64, qd, qn, qm, 0, 0) };
+    chk(a, want);
+});
+crate::vp_harness!(sub_w, |s| {
+    let (d, qd) = reg(s); let (n, qn) = reg(s); let (m, qm) = reg(s);
+    let mut a = AssemblerArm64::new();
+    a.sub_w(d, n, m);
+    let want = if qd == R::Sp || qn == R::Sp { q_sh(Op::SubExt, 32, qd, qn, qm, 2, 0) } else { q_sh(Op::SubSh, 32, qd, qn, qm, 0, 0) };
+    chk(a, want);
+});
+crate::vp_harness!(add_ext, |s| { rrr_ext!(s, add_ext, Op::AddExt, 64) });
+crate::vp_harness!(add_ext_w, |s| { rrr_ext!(s, add_ext_w, Op::AddExt, 32) });
+crate::vp_harness!(sub_ext, |s| { rrr_ext!(s, sub_ext, Op::SubExt, 64) });
+crate::vp_harness!(sub_ext_w, |s| { rrr_ext!(s, sub_ext_w, Op::SubExt, 32) });
+crate::vp_harness!(subs_ext, |s| { rrr_ext!(s, subs_ext, Op::SubsExt, 64) });
+crate::vp_harness!(subs_ext_w, |s| { rrr_ext!(s, subs_ext_w, Op::SubsExt, 32) });
+crate::vp_harness!(add_sh, |s| { rrr_sh!(s, add_sh, Op::AddSh, 64) });
+crate::vp_harness!(add_sh_w, |s| { rrr_sh!(s, add_sh_w, Op::AddSh, 32) });
+crate::vp_harness!(adds_sh, |s| { rrr_sh!(s, adds_sh, Op::AddsSh, 64) });
+crate::vp_harness!(adds_sh_w, |s| { rrr_sh!(s, adds_sh_w, Op::AddsSh, 32) });
+crate::vp_harness!(sub_sh, |s| { rrr_sh!(s, sub_sh, Op::SubSh, 64) });
+crate::vp_harness!(sub_sh_w, |s| { rrr_sh!(s, sub_sh_w, Op::SubSh, 32) });
+crate::vp_harness!(subs_sh, |s| { rrr_sh!(s, subs_sh, Op::SubsSh, 64) });
+crate::vp_harness!(subs_sh_w, |s| { rrr_sh!(s, subs_sh_w, Op::SubsSh, 32) });
+crate::vp_harness!(add_imm, |s| { rri!(s, add_imm, Op::AddImm, 64) });
+crate::vp_harness!(add_imm_w, |s| { rri!(s, add_imm_w, Op::AddImm, 32) });
+crate::vp_harness!(adds_imm, |s| { rri!(s, adds_imm, Op::AddsImm, 64) });
+crate::vp_harness!(adds_imm_w, |s| { rri!(s, adds_imm_w, Op::AddsImm, 32) });
+crate::vp_harness!(sub_imm, |s| { rri!(s, sub_imm, Op::SubImm, 64) });
+crate::vp_harness!(sub_imm_w, |s| { rri!(s, sub_imm_w, Op::SubImm, 32) });
+crate::vp_harness!(subs_imm, |s| { rri!(s, subs_imm, Op::SubsImm, 64) });
+crate::vp_harness!(subs_imm_w, |s| { rri!(s, subs_imm_w, Op::SubsImm, 32) });
+crate::vp_harness!(adds, |s| { rrr!(s, adds, Op::AddsSh, 64) });
+crate::vp_harness!(adds_w, |s| { rrr!(s, adds_w, Op::AddsSh, 32) });
+crate::vp_harness!(subs, |s| { rrr!(s, subs, Op::SubsSh, 64) });
+crate::vp_harness!(subs_w, |s| { rrr!(s, subs_w, Op::SubsSh, 32) });
+
+// compare aliases: Rd = ZR
+crate::vp_harness!(cmn_imm, |s| { zri!(s, cmn_imm, Op::AddsImm, 64) });
+crate::vp_harness!(cmn_imm_w, |s| { zri!(s, cmn_imm_w, Op::AddsImm, 32) });
+crate::vp_harness!(cmp_imm, |s| { zri!(s, cmp_imm, Op::SubsImm, 64) });
+crate::vp_harness!(cmp_imm_w, |s| { zri!(s, cmp_imm_w, Op::SubsImm, 32) });
+crate::vp_harness!(cmp, |s| {
+    let (n, qn) = reg(s); let (m, qm) = reg(s);
+    let mut a = AssemblerArm64::new();
+    a.cmp(n, m);
+    chk(a, q_sh(Op::SubsSh, 64, R::Zr, qn, qm, 0, 0));
+});
+crate::vp_harness!(cmp_w, |s| {
+    let (n, qn) = reg(s); let (m, qm) = reg(s);
+    let mut a = AssemblerArm64::new();
+    a.cmp_w(n, m);
+    chk(a, q_sh(Op::SubsSh, 32, R::Zr, qn, qm, 0, 0));
+});
+crate::vp_harness!(cmp_sh, |s| {
+    let (n, qn) = reg(s); let (m, qm) = reg(s); let (sh, qs) = shift(s); let amount = s.u32();
+    let mut a = AssemblerArm64::new();
+    a.cmp_sh(n, m, sh, amount);
+    let mut want = q_sh(Op::SubsSh, 64, R::Zr, qn, qm, qs, 0);
+    want.imm = amount as i64;
+    chk(a, want);
+});
+crate::vp_harness!(cmp_sh_w, |s| {
+    let (n, qn) = reg(s); let (m, qm) = reg(s); let (sh, qs) = shift(s); let amount = s.u32();
+    let mut a = AssemblerArm64::new();
+    a.cmp_sh_w(n, m, sh, amount);
+    let mut want = q_sh(Op::SubsSh, 32, R::Zr, qn, qm, qs, 0);
+    want.imm = amount as i64;
+    chk(a, want);
+});
+crate::vp_harness!(cmp_ext, |s| {
+    let (n, qn) = reg(s); let (m, qm) = reg(s); let (ex, qe, _) = extend(s, 64); let amount = s.u32();
+    let mut a = AssemblerArm64::new();
+    a.cmp_ext(n, m, ex, amount);
+    let mut want = q_sh(Op::SubsExt, 64, R::Zr, qn, qm, qe, 0);
+    want.imm = amount as i64;
+    chk(a, want);
+});
+crate::vp_harness!(cmp_ext_w, |s| {
+    let (n, qn) = reg(s); let (m, qm) = reg(s); let (ex, qe, _) = extend(s, 32); let amount = s.u32();
+    let mut a = AssemblerArm64::new();
+    a.cmp_ext_w(n, m, ex, amount);
+    let mut want = q_sh(Op::SubsExt, 32, R::Zr, qn, qm, qe, 0);
+    want.imm = amount as i64;
+    chk(a, want);
+});
+
+// ==========================================================================================
+// logical
+
+crate::vp_harness!(and_imm, |s| {
+    let (d, qd) = reg(s); let (n, qn) = reg(s); let imm = s.u64();
+    let mut a = AssemblerArm64::new();
+    a.and_imm(d, n, imm);
+    chk(a, q_rri(Op::AndImm, 64, qd, qn, imm as i64));
+});
+crate::vp_harness!(and_imm_w, |s| {
+    let (d, qd) = reg(s); let (n, qn) = reg(s); let imm = s.u64();
+    let mut a = AssemblerArm64::new();
+    a.and_imm_w(d, n, imm);
+    // a 32-bit AND has a 32-bit mask: anything wider must be refused (the decoded mask is < 2^32)
+    chk(a, q_rri(Op::AndImm, 32, qd, qn, imm as i64));
+});
+crate::vp_harness!(and_sh, |s| { rrr_sh!(s, and_sh, Op::AndSh, 64) });
+crate::vp_harness!(and_sh_w, |s| { rrr_sh!(s, and_sh_w, Op::AndSh, 32) });
+crate::vp_harness!(ands_sh, |s| { rrr_sh!(s, ands_sh, Op::AndsSh, 64) });
+crate::vp_harness!(ands_sh_w, |s| { rrr_sh!(s, ands_sh_w, Op::AndsSh, 32) });
+crate::vp_harness!(bic_sh, |s| { rrr_sh!(s, bic_sh, Op::BicSh, 64) });
+crate::vp_harness!(bic_sh_w, |s| { rrr_sh!(s, bic_sh_w, Op::BicSh, 32) });
+crate::vp_harness!(bics_sh, |s| { rrr_sh!(s, bics_sh, Op::BicsSh, 64) });
+crate::vp_harness!(bics_sh_w, |s| { rrr_sh!(s, bics_sh_w, Op::BicsSh, 32) });
+crate::vp_harness!(eon_sh, |s| { rrr_sh!(s, eon_sh, Op::EonSh, 64) });
+crate::vp_harness!(eon_sh_w, |s| { rrr_sh!(s, eon_sh_w, Op::EonSh, 32) });
+crate::vp_harness!(eor_sh, |s| { rrr_sh!(s, eor_sh, Op::EorSh, 64) });
+crate::vp_harness!(eor_sh_w, |s| { rrr_sh!(s, eor_sh_w, Op::EorSh, 32) });
+crate::vp_harness!(orn_sh, |s| { rrr_sh!(s, orn_sh, Op::OrnSh, 64) });
+crate::vp_harness!(orn_sh_w, |s| { rrr_sh!(s, orn_sh_w, Op::OrnSh, 32) });
+crate::vp_harness!(orr_sh, |s| { rrr_sh!(s, orr_sh, Op::OrrSh, 64) });
+crate::vp_harness!(orr_sh_w, |s| { rrr_sh!(s, orr_sh_w, Op::OrrSh, 32) });
+
+// ==========================================================================================
+// shifts, bitfield, 1/2/3-source data processing
+
+crate::vp_harness!(asrv, |s| { rrr!(s, asrv, Op::Asrv, 64) });
+crate::vp_harness!(asrv_w, |s| { rrr!(s, asrv_w, Op::Asrv, 32) });
+crate::vp_harness!(lsl, |s| { rrr!(s, lsl, Op::Lslv, 64) });
+crate::vp_harness!(lsl_w, |s| { rrr!(s, lsl_w, Op::Lslv, 32) });
+crate::vp_harness!(lsr, |s| { rrr!(s, lsr, Op::Lsrv, 64) });
+crate::vp_harness!(lsr_w, |s| { rrr!(s, lsr_w, Op::Lsrv, 32) });
+crate::vp_harness!(ror, |s| { rrr!(s, ror, Op::Rorv, 64) });
+crate::vp_harness!(ror_w, |s| { rrr!(s, ror_w, Op::Rorv, 32) });
+crate::vp_harness!(sdiv, |s| { rrr!(s, sdiv, Op::Sdiv, 64) });
+crate::vp_harness!(sdiv_w, |s| { rrr!(s, sdiv_w, Op::Sdiv, 32) });
+crate::vp_harness!(udiv, |s| { rrr!(s, udiv, Op::Udiv, 64) });
+crate::vp_harness!(udiv_w, |s| { rrr!(s, udiv_w, Op::Udiv, 32) });
+
+crate::vp_harness!(bfm, |s| { bf!(s, bfm, Op::Bfm, 64) });
+crate::vp_harness!(bfm_w, |s| { bf!(s, bfm_w, Op::Bfm, 32) });
+crate::vp_harness!(sbfm, |s| { bf!(s, sbfm, Op::Sbfm, 64) });
+crate::vp_harness!(sbfm_w, |s| { bf!(s, sbfm_w, Op::Sbfm, 32) });
+crate::vp_harness!(ubfm, |s| { bf!(s, ubfm, Op::Ubfm, 64) });
+crate::vp_harness!(ubfm_w, |s| { bf!(s, ubfm_w, Op::Ubfm, 32) });
+
+// LSL #sh = UBFM Rd, Rn, #(-sh MOD size), #(size-1-sh); only sh < size exists
+crate::vp_harness!(lsl_imm, |s| {
+    let (d, qd) = reg(s); let (n, qn) = reg(s); let sh = s.u32();
+    let mut a = AssemblerArm64::new();
+    a.lsl_imm(d, n, sh);
+    chk(a, q_bf(Op::Ubfm, 64, qd, qn, (64 - sh as i64).rem_euclid(64), 63 - sh as i64));
+});
+crate::vp_harness!(lsl_imm_w, |s| {
+    let (d, qd) = reg(s); let (n, qn) = reg(s); let sh = s.u32();
+    let mut a = AssemblerArm64::new();
+    a.lsl_imm_w(d, n, sh);
+    chk(a, q_bf(Op::Ubfm, 32, qd, qn, (32 - sh as i64).rem_euclid(32), 31 - sh as i64));
+});
+// LSR #sh = UBFM Rd, Rn, #sh, #(size-1)
+crate::vp_harness!(lsr_imm, |s| {
+    let (d, qd) = reg(s); let (n, qn) = reg(s); let sh = s.u32();
+    let mut a = AssemblerArm64::new();
+    a.lsr_imm(d, n, sh);
+    chk(a, q_bf(Op::Ubfm, 64, qd, qn, sh as i64, 63));
+});
+crate::vp_harness!(lsr_imm_w, |s| {
+    let (d, qd) = reg(s); let (n, qn) = reg(s); let sh = s.u32();
+    let mut a = AssemblerArm64::new();
+    a.lsr_imm_w(d, n, sh);
+    chk(a, q_bf(Op::Ubfm, 32, qd, qn, sh as i64, 31));
+});
+// SXTW Xd, Wn = SBFM Xd, Xn, #0, #31; UXTB Wd, Wn = UBFM Wd, Wn, #0, #7;
+// "uxtw" (zero-extend the low word) = UBFM Xd, Xn, #0, #31
+crate::vp_harness!(sxtw, |s| {
+    let (d, qd) = reg(s); let (n, qn) = reg(s);
+    let mut a = AssemblerArm64::new();
+    a.sxtw(d, n);
+    chk(a, q_bf(Op::Sbfm, 64, qd, qn, 0, 31));
+});
+crate::vp_harness!(uxtb, |s| {
+    let (d, qd) = reg(s); let (n, qn) = reg(s);
+    let mut a = AssemblerArm64::new();
+    a.uxtb(d, n);
+    chk(a, q_bf(Op::Ubfm, 32, qd, qn, 0, 7));
+});
+crate::vp_harness!(uxtw, |s| {
+    let (d, qd) = reg(s); let (n, qn) = reg(s);
+    let mut a = AssemblerArm64::new();
+    a.uxtw(d, n);
+    chk(a, q_bf(Op::Ubfm, 64, qd, qn, 0, 31));
+});
+
+crate::vp_harness!(cls, |s| { rr!(s, cls, Op::Cls, 64) });
+crate::vp_harness!(cls_w, |s| { rr!(s, cls_w, Op::Cls, 32) });
+crate::vp_harness!(clz, |s| { rr!(s, clz, Op::Clz, 64) });
+crate::vp_harness!(clz_w, |s| { rr!(s, clz_w, Op::Clz, 32) });
+crate::vp_harness!(rbit, |s| { rr!(s, rbit, Op::Rbit, 64) });
+crate::vp_harness!(rbit_w, |s| { rr!(s, rbit_w, Op::Rbit, 32) });
+crate::vp_harness!(rev, |s| { rr!(s, rev, Op::Rev, 64) });
+crate::vp_harness!(rev_w, |s| { rr!(s, rev_w, Op::Rev, 32) });
+
+crate::vp_harness!(madd, |s| { rrrr!(s, madd, Op::Madd, 64) });
+crate::vp_harness!(madd_w, |s| { rrrr!(s, madd_w, Op::Madd, 32) });
+crate::vp_harness!(msub, |s| { rrrr!(s, msub, Op::Msub, 64) });
+crate::vp_harness!(msub_w, |s| { rrrr!(s, msub_w, Op::Msub, 32) });
+crate::vp_harness!(smaddl, |s| { rrrr!(s, smaddl, Op::Smaddl, 64) });
+// MUL = MADD with Ra = ZR; SMULL = SMADDL with Ra = ZR
+crate::vp_harness!(mul, |s| {
+    let (d, qd) = reg(s); let (n, qn) = reg(s); let (m, qm) = reg(s);
+    let mut a = AssemblerArm64::new();
+    a.mul(d, n, m);
+    chk(a, q_rrrr(Op::Madd, 64, qd, qn, qm, R::Zr));
+});
+crate::vp_harness!(mul_w, |s| {
+    let (d, qd) = reg(s); let (n, qn) = reg(s); let (m, qm) = reg(s);
+    let mut a = AssemblerArm64::new();
+    a.mul_w(d, n, m);
+    chk(a, q_rrrr(Op::Madd, 32, qd, qn, qm, R::Zr));
+});
+crate::vp_harness!(smull, |s| {
+    let (d, qd) = reg(s); let (n, qn) = reg(s); let (m, qm) = reg(s);
+    let mut a = AssemblerArm64::new();
+    a.smull(d, n, m);
+    chk(a, q_rrrr(Op::Smaddl, 64, qd, qn, qm, R::Zr));
+});
+crate::vp_harness!(smulh, |s| { rrr!(s, smulh, Op::Smulh, 64) });
+
+// ==========================================================================================
+// conditional select
+
+crate::vp_harness!(csel, |s| { rrrc!(s, csel, Op::Csel, 64) });
+crate::vp_harness!(csel_w, |s| { rrrc!(s, csel_w, Op::Csel, 32) });
+crate::vp_harness!(csinc, |s| { rrrc!(s, csinc, Op::Csinc, 64) });
+crate::vp_harness!(csinc_w, |s| { rrrc!(s, csinc_w, Op::Csinc, 32) });
+crate::vp_harness!(csinv, |s| { rrrc!(s, csinv, Op::Csinv, 64) });
+crate::vp_harness!(csinv_w, |s| { rrrc!(s, csinv_w, Op::Csinv, 32) });
+// CSET Rd, cond = CSINC Rd, ZR, ZR, invert(cond)
+crate::vp_harness!(cset, |s| {
+    let (d, qd) = reg(s); let (c, qc) = cond(s);
+    let mut a = AssemblerArm64::new();
+    a.cset(d, c);
+    chk(a, q_csel(Op::Csinc, 64, qd, R::Zr, R::Zr, qc ^ 1));
+});
+crate::vp_harness!(cset_w, |s| {
+    let (d, qd) = reg(s); let (c, qc) = cond(s);
+    let mut a = AssemblerArm64::new();
+    a.cset_w(d, c);
+    chk(a, q_csel(Op::Csinc, 32, qd, R::Zr, R::Zr, qc ^ 1));
+});
+
+// ==========================================================================================
+// moves
+
+// MOV (to/from SP) = ADD Rd|SP, Rn|SP, #0; MOV (register) = ORR Rd, ZR, Rm
+crate::vp_harness!(mov, |s| {
+    let (d, qd) = reg(s); let (m, qm) = reg(s);
+    let mut a = AssemblerArm64::new();
+    a.mov(d, m);
+    let want = if qd == R::Sp || qm == R::Sp { q_rri(Op::AddImm, 64, qd, qm, 0) } else { q_sh(Op::OrrSh, 64, qd, R::Zr, qm, 0, 0) };
+    chk(a, want);
+});
+crate::vp_harness!(mov_w, |s| {
+    let (d, qd) = reg(s); let (m, qm) = reg(s);
+    let mut a = AssemblerArm64::new();
+    a.mov_w(d, m);
+    let want = if qd == R::Sp || qm == R::Sp { q_rri(Op::AddImm, 32, qd, qm, 0) } else { q_sh(Op::OrrSh, 32, qd, R::Zr, qm, 0, 0) };
+    chk(a, want);
+});
+crate::vp_harness!(movn, |s| { movw!(s, movn, Op::Movn, 64) });
+crate::vp_harness!(movn_w, |s| { movw!(s, movn_w, Op::Movn, 32) });
+crate::vp_harness!(movz, |s| { movw!(s, movz, Op::Movz, 64) });
+crate::vp_harness!(movz_w, |s| { movw!(s, movz_w, Op::Movz, 32) });
+crate::vp_harness!(movk, |s| { movw!(s, movk, Op::Movk, 64) });
+crate::vp_harness!(movk_w, |s| { movw!(s, movk_w, Op::Movk, 32) });
